@@ -1351,7 +1351,7 @@ func (interp *Interpreter) cfg(root *node, sc *scope, importPath, pkgName string
 					n.findex = notInFrame
 					n.val = nil
 					switch bname {
-					case "unsafe.alignOf", "unsafe.Offsetof", "unsafe.Sizeof":
+					case "unsafe.Alignof", "unsafe.Offsetof", "unsafe.Sizeof":
 						n.gen = nop
 					}
 				case directReturn(n, sc.def):
@@ -2055,7 +2055,7 @@ func (interp *Interpreter) cfg(root *node, sc *scope, importPath, pkgName string
 						} else {
 							n.rval = s
 						}
-						if pkg == "unsafe" && (name == "AlignOf" || name == "Offsetof" || name == "Sizeof") {
+						if pkg == "unsafe" && (name == "Alignof" || name == "Offsetof" || name == "Sizeof") {
 							n.sym = &symbol{kind: bltnSym, node: n, rval: s}
 							n.ident = pkg + "." + name
 						}
